@@ -273,6 +273,18 @@ func (r *replayStream) Recv() (*pb.SearchResultItem, error) {
 	return nil, r.end
 }
 
+// injected is the error a failing link returns: a plain error, a gRPC status with the behaviour's code, or (Code -1)
+// the bare context.Canceled value - although the caller's context is alive, as when the serving node resets the stream.
+func injected(b Behaviour) error {
+	switch {
+	case b.Code > 0:
+		return status.Error(codes.Code(b.Code), "injected failure")
+	case b.Code < 0:
+		return context.Canceled
+	}
+	return ErrInjected
+}
+
 func (s *searchShim) wait(ctx context.Context, b Behaviour) error {
 	switch b.Kind {
 	case BehDelay:
@@ -306,8 +318,8 @@ func (s *searchShim) SearchPartitions(ctx context.Context, in *pb.SearchPartitio
 		return nil, err
 	}
 	if b.Kind == BehError {
-		call.Err = ErrInjected
-		return nil, ErrInjected
+		call.Err = injected(b)
+		return nil, call.Err
 	}
 	srv := &collectStream{ctx: ctx}
 	if err := s.to.Search.SearchPartitions(in, srv); err != nil {
@@ -318,8 +330,8 @@ func (s *searchShim) SearchPartitions(ctx context.Context, in *pb.SearchPartitio
 	rs := &replayStream{ctx: ctx, items: srv.items, limit: len(srv.items), end: io.EOF, call: call, mu: &s.c.mu}
 	if b.Kind == BehPartialThenError {
 		rs.limit = len(srv.items) / 2
-		rs.end = ErrInjected
-		call.Err = ErrInjected
+		rs.end = injected(b)
+		call.Err = rs.end
 	}
 	return rs, nil
 }
